@@ -856,3 +856,56 @@ def rule_written_local_initialised(ctx):
                              "never-written byte must read as zero" % (v, render(c)[:50]))
     ctx.floor("INITWRITE", 2, n, "(locals written to the file through their address)")
     return n
+
+
+# ---------------------------------------------------------------------------------------------------------------------
+NULLABLE_STRINGS = {("vgroup_desc", "vgname"), ("vgroup_desc", "vgclass")}
+STR_READERS = {"strcpy": [1], "strncpy": [1], "strlen": [0], "strcmp": [0, 1], "strncmp": [0, 1], "HIstrncpy": [1], "strcat": [1], "memcpy": [1]}
+
+
+def rule_nullable_string_guarded(ctx):
+    """NULLNAME (C08): the name and the class of a Vgroup are allocated strings and are NULL until they are set.  Wherever one of
+    them is read as a C string (copied, measured, compared), a test of that very field against NULL encloses the use (an `if`
+    around it, or the left operand of the `&&` / `?:` it sits in).  Most uses have the test; one that lacks it crashes on a
+    Vgroup that was created but not yet named."""
+    prog = ctx.prog
+    n = 0
+    for f in prog.lib_funcs():
+        if not f.rel.endswith(("vgp.c", "vattr.c", "vg.c", "vparse.c", "vconv.c")):
+            continue
+        uses = []
+
+        def mentions(e, rf):
+            return any(y[0] == "mem" and (y[3], y[2]) == rf for y in walk(e, True))
+
+        def vis(nn, st):
+            exprs = [nn[1]] if nn[0] in ("s", "if", "while", "switch") else []
+            for e in exprs:
+                for c in calls_in(e, True):
+                    for pos in STR_READERS.get(c[1], []):
+                        if pos < len(c[3]):
+                            a = strip(c[3][pos])
+                            if kind(a) == "mem" and (a[3], a[2]) in NULLABLE_STRINGS:
+                                rf = (a[3], a[2])
+                                guarded = any(x[0] in ("if", "while") and mentions(x[1], rf) for x in st)
+                                # the same expression tests the field before the call: `p != NULL && strcmp(p, ..)`, `p ? strlen(p) : 0`
+                                for y in walk(e, True):
+                                    if y[0] == "bin" and y[1] in ("&&", "||") and mentions(y[2], rf) and any(z is c for z in walk(y[3], True)):
+                                        guarded = True
+                                    if y[0] == "cond" and mentions(y[1], rf):
+                                        guarded = True
+                                if nn[0] == "if" and mentions(nn[1], rf) and not any(z is c for z in walk(nn[1], True)):
+                                    guarded = True
+                                uses.append((c, rf, guarded))
+            return True
+        ast_walk(f.raw.get("ast"), vis)
+        for k, (c, rf, guarded) in enumerate(uses):
+            n += 1
+            key = "NULLNAME:%s:%s#%d" % (f.name, rf[1], k + 1)
+            if guarded:
+                ctx.holds("NULLNAME", key, f.where(c[5]), "`%s` is read by %s under a NULL test of that field" % (rf[1], c[1]), nontrivial=True)
+            else:
+                ctx.violated("NULLNAME", key, f.where(c[5]), "%s reads `%s` as a string without a NULL test of that field: a Vgroup that has no %s yet makes it dereference NULL" % (
+                    c[1], rf[1], "name" if rf[1] == "vgname" else "class"))
+    ctx.floor("NULLNAME", 6, n, "(string reads of a Vgroup's name or class)")
+    return n
